@@ -1637,3 +1637,155 @@ def check_truthiness_by_membership(prog: Program, res: Result, rule: str) -> Non
                     res.fail(rule, file=mod.relpath, line=c.lineno, qualname=fi.qualname, construct=f"{fi.qualname}: truth decided by membership in `{norm(c.comparators[0])}`", message=f"{fi.qualname} tests `{norm(c, 60)}`: membership compares with ==, and 0 == False, so a property that is 0 (or 0.0) counts as false - `{{{{ items | where: 'n' }}}}` drops the item whose n is 0 although 0 is truthy in Liquid", what=f"{fi.qualname}: truth of a data value is decided by is_truthy()")
     res.ok(rule, "liquid2/builtin/filters/*", "no filter decides truth by membership in a tuple holding True / False", f"{n} functions; positive example matched")
     res.floor(rule, "filter functions scanned", n, 100)
+
+
+def check_uptodate_failure_is_stale(prog: Program, res: Result, rule: str) -> None:
+    """A freshness test that cannot be carried out never answers 'fresh': within Template.is_up_to_date[_async] and the helpers they call
+    no exception handler returns anything but False / re-raises. A vanished source raising from uptodate() must surface (or count
+    as stale) - swallowed as fresh, the deleted template is served for ever where the uncached loader raises TemplateNotFoundError."""
+    t = prog.cls("liquid2.template.Template")
+    fns = []
+    todo = ["is_up_to_date", "is_up_to_date_async"]
+    seen = set()
+    while todo:
+        nm = todo.pop()
+        if nm in seen or nm not in t.methods:
+            continue
+        seen.add(nm)
+        f = t.methods[nm]
+        fns.append(f)
+        for x in ast.walk(f.node):
+            if isinstance(x, ast.Attribute) and isinstance(x.value, ast.Name) and x.value.id == "self" and x.attr in t.methods:
+                todo.append(x.attr)
+    n = 0
+    for f in fns:
+        n += 1
+        bad = None
+        for h in ast.walk(f.node):
+            if isinstance(h, ast.ExceptHandler):
+                for r in ast.walk(h):
+                    if isinstance(r, ast.Return) and not (isinstance(r.value, ast.Constant) and r.value.value is False):
+                        bad = r
+        site = f"{f.file}:{f.node.lineno} Template.{f.name}"
+        what = f"Template.{f.name}: a failing freshness test is never taken for 'fresh'"
+        if bad is not None:
+            res.fail(rule, file=f.file, line=bad.lineno, qualname=f"Template.{f.name}", construct=f"Template.{f.name}: an exception from the freshness test answers `{norm(bad.value, 20) if bad.value is not None else 'None'}`", message=f"Template.{f.name} catches an exception raised by uptodate() and returns `{norm(bad.value, 20) if bad.value is not None else 'None'}`: a loader whose freshness test raises because the source is gone is told the cached template is fresh, so the deleted template keeps being served where the uncached loader raises TemplateNotFoundError", what=what)
+        else:
+            res.ok(rule, site, what, "no handler, or handlers answer False")
+    res.floor(rule, "freshness functions of Template", n, 2)
+
+
+def check_stoprender_catchers(prog: Program, res: Result, rule: str) -> None:
+    """StopRender - raised by `extends` after the parent chain has been rendered - ends the render of the template it is raised in: the only
+    handlers able to catch it (handlers naming StopRender or one of its liquid2 base classes) are in Template.render_with_context[_async].
+    A loop or block that catches a base class of it (`except LiquidInterrupt`) swallows it and the child keeps rendering after its parent."""
+    exc_mod = prog.mod("liquid2/exceptions.py")
+    sr = exc_mod.classes.get("StopRender")
+    if sr is None:
+        raise AnalysisError("StopRender vanished")
+    fam = {c.name for c in prog.mro(sr) if c.file == exc_mod.relpath}
+    n = 0
+    for fi in sorted(prog.all_functions(), key=lambda f: (f.file, f.node.lineno)):
+        for h in ast.walk(fi.node):
+            if not (isinstance(h, ast.ExceptHandler) and h.type is not None and prog.enclosing_function(fi.module, h) is fi):
+                continue
+            names = {(dotted(x) or "").split(".")[-1] for x in (h.type.elts if isinstance(h.type, ast.Tuple) else [h.type])}
+            hit = names & fam
+            if not hit:
+                continue
+            n += 1
+            site = f"{fi.file}:{h.lineno} {fi.qualname}"
+            what = f"{fi.qualname}: `except {norm(h.type, 40)}` cannot swallow the StopRender of an `extends`"
+            if fi.cls is not None and fi.cls.name == "Template" and fi.name.startswith("render_with_context"):
+                res.ok(rule, site, what, "the render frame that StopRender is meant for")
+            else:
+                res.fail(rule, file=fi.file, line=h.lineno, qualname=fi.qualname, construct=f"{fi.qualname}: `except {norm(h.type, 30)}` catches StopRender", message=f"{fi.qualname} has a handler for `{sorted(hit)[0]}`, which StopRender is (a subclass of): an `extends` tag rendered inside this construct raises StopRender after the parent has been rendered, the handler takes it for its own signal, and the child template goes on rendering - its text and blocks are written a second time after the page", what=what)
+    res.floor(rule, "handlers able to catch StopRender", n, 2)
+
+
+def check_children_twins(prog: Program, res: Result, rule: str) -> None:
+    """children_async of every Node / Expression (and the base default) hands out what children() hands out, arguments forwarded alike."""
+    from sa import twins
+
+    n = 0
+    for fs, fa in twins.find_pairs(prog):
+        if fs.name != "children" or fs.cls is None:
+            continue
+        n += 1
+        site = f"{fa.file}:{fa.node.lineno} {fa.qualname}"
+        what = f"{fa.qualname} == {fs.qualname} modulo await"
+        if twins.is_default_delegation(fa.node, fs.name):
+            # a delegating default must forward every keyword the sync method takes
+            kws = {a.arg for a in fs.node.args.kwonlyargs}
+            call = next((c for c in ast.walk(fa.node) if isinstance(c, ast.Call) and isinstance(c.func, ast.Attribute) and c.func.attr == fs.name), None)
+            passed = {k.arg for k in call.keywords} if call is not None else set()
+            if kws - passed and not any(k.arg is None for k in (call.keywords if call is not None else [])):
+                res.fail(rule, file=fa.file, line=fa.node.lineno, qualname=fa.qualname, construct=f"{fa.qualname}: delegates to {fs.name}() without `{sorted(kws - passed)[0]}`", message=f"{fa.qualname} delegates to {fs.name}() and drops `{sorted(kws - passed)[0]}`: analyze_async(include_partials=False) then still loads and walks parents and partials for every node that relies on this default, so the async report carries variables, filters and tags the sync one does not", what=what)
+            else:
+                res.ok(rule, site, what, "default delegation, keywords forwarded")
+            continue
+        diffs = twins.diff_functions(twins.normalise(fs.node), twins.normalise(fa.node))
+        if diffs:
+            d = diffs[0]
+            res.fail(rule, file=fa.file, line=d.async_line or fa.node.lineno, qualname=fa.qualname, construct=f"{fa.qualname}: sync `{d.sync_text[:50]}` vs async `{d.async_text[:50]}`", message=f"{fa.qualname} differs from {fs.qualname}: sync does `{d.sync_text[:80]}`, async does `{d.async_text[:80]}` - analyze_async() walks other children than analyze()", what=what)
+        else:
+            res.ok(rule, site, what, "identical after normalisation")
+    res.floor(rule, "children / children_async pairs", n, 3)
+
+
+def check_dict_of_data_is_narrowed(prog: Program, res: Result, rule: str) -> None:
+    """`dict(x)` looks for a `keys()` method on x and calls it: applied to a template-supplied value it must sit behind
+    `isinstance(x, Mapping / dict)` - otherwise any context object with a Python-side `keys()` has that method run and its result
+    handed to the template (the argument helpers in liquid2/filter.py and the filters)."""
+    from checks.C15 import _path_condition
+    from checks.C17 import _known_leaves
+
+    def _dict_of(c: ast.AST, params: set[str]) -> bool:
+        return isinstance(c, ast.Call) and isinstance(c.func, ast.Name) and c.func.id == "dict" and len(c.args) == 1 and isinstance(c.args[0], ast.Name) and c.args[0].id in params
+
+    pos = ast.parse("def f(value):\n    return dict(value)\n").body[0]
+    if not any(_dict_of(c, {"value"}) for c in ast.walk(pos)):
+        raise AnalysisError(f"{rule}: positive example not matched")
+    n = 0
+    for mod in sorted(prog.modules.values(), key=lambda m: m.relpath):
+        if not (mod.relpath == "liquid2/filter.py" or mod.relpath.startswith("liquid2/builtin/filters/")):
+            continue
+        for fi in mod.functions.values():
+            params = set(fi.params()) - {"self", "cls"}
+            for c in ast.walk(fi.node):
+                if not (_dict_of(c, params) and prog.enclosing_function(mod, c) is fi):
+                    continue
+                n += 1
+                p = c.args[0].id
+                known = [kl for t_, pol_ in _path_condition(mod, fi.node, c) for kl in _known_leaves(t_, pol_)]
+                narrowed = any(v and txt.startswith(f"isinstance({p}, ") and any(w in txt for w in ("Mapping", "dict")) for txt, v in known)
+                site = f"{mod.relpath}:{c.lineno} {fi.qualname}"
+                what = f"{fi.qualname}: `dict({p})` is applied to a Mapping only"
+                if narrowed:
+                    res.ok(rule, site, what, "behind isinstance(…, Mapping)")
+                else:
+                    res.fail(rule, file=mod.relpath, line=c.lineno, qualname=fi.qualname, construct=f"{fi.qualname}: dict({p}) of a value not known to be a Mapping", message=f"{fi.qualname} calls `dict({p})` where `{p}` is not known to be a Mapping: dict() calls `{p}.keys()` and `{p}[k]` on whatever the template hands in, so an ordinary Python object with a `keys` method has it run - `{{{{ rec | json }}}}` prints the key listing of an object that is no Mapping", what=what)
+    res.ok(rule, "liquid2/filter.py, liquid2/builtin/filters/*", "every dict(<parameter>) is behind an isinstance(…, Mapping) test", f"{n} site(s); positive example matched")
+
+
+def check_filters_do_not_mutate_params(prog: Program, res: Result, rule: str) -> None:
+    """A filter returns a new value: no in-place list method (`reverse`, `sort`, `append`, `extend`, `insert`, `pop`, `remove`, `clear`)
+    is called on a parameter of a filter function that was never rebound to a fresh list inside the function - the decorators may
+    hand the caller's own list through (a flat list needs no flattening), so `a | reverse` would reverse `a` for the rest of the render."""
+    MUT = ("reverse", "sort", "append", "extend", "insert", "pop", "remove", "clear")
+    n = 0
+    for mod in sorted(prog.modules.values(), key=lambda m: m.relpath):
+        if not mod.relpath.startswith("liquid2/builtin/filters/"):
+            continue
+        for fi in mod.functions.values():
+            params = set(fi.params()) - {"self", "cls"}
+            # **kwargs / *args are fresh per call; the render context and environment are not template data
+            params -= {a.arg for a in (fi.node.args.kwarg, fi.node.args.vararg) if a is not None}
+            params = {p_ for p_ in params if "context" not in p_ and "env" not in p_}
+            rebound = {t.id for a in ast.walk(fi.node) if isinstance(a, (ast.Assign, ast.AnnAssign)) for t_ in (a.targets if isinstance(a, ast.Assign) else [a.target]) for t in ast.walk(t_) if isinstance(t, ast.Name)}
+            n += 1
+            for c in ast.walk(fi.node):
+                if isinstance(c, ast.Call) and isinstance(c.func, ast.Attribute) and c.func.attr in MUT and isinstance(c.func.value, ast.Name) and c.func.value.id in params - rebound and prog.enclosing_function(mod, c) is fi:
+                    res.fail(rule, file=mod.relpath, line=c.lineno, qualname=fi.qualname, construct=f"{fi.qualname}: `{norm(c, 30)}` changes its argument in place", message=f"{fi.qualname} calls `{norm(c, 40)}` on its parameter: the filter's result is its input, changed - every later use of the variable in the same render (and the caller's data afterwards) sees the new order / contents", what=f"{fi.qualname}: builds a new value")
+    res.ok(rule, "liquid2/builtin/filters/*", "no filter calls an in-place list method on a parameter it did not rebind", f"{n} functions")
+    res.floor(rule, "filter functions scanned", n, 100)
